@@ -431,7 +431,14 @@ class Normalizer(ast.NodeTransformer):
             td, ed = ast.dump(T).replace('Store()', 'Load()'), ast.dump(E)
             ld, rd = ast.dump(l), ast.dump(r)
             if isinstance(T, (ast.Name, ast.Attribute)):
-                if (isinstance(op, (ast.Gt, ast.GtE)) and ld == ed and rd == td) or \
+                # integer counters: `if a >= T: T = a + 1`  is  `T = max(a + 1, T)`  (a >= T  <=>  a + 1 > T)
+                plus_one = None
+                if isinstance(E, ast.BinOp) and isinstance(E.op, ast.Add) and isinstance(E.right, ast.Constant) \
+                        and E.right.value == 1:
+                    plus_one = ast.dump(E.left)
+                succ = (isinstance(op, ast.GtE) and ld == plus_one and rd == td) or \
+                       (isinstance(op, ast.LtE) and rd == plus_one and ld == td)
+                if succ or (isinstance(op, (ast.Gt, ast.GtE)) and ld == ed and rd == td) or \
                         (isinstance(op, (ast.Lt, ast.LtE)) and rd == ed and ld == td):
                     load_t = copy.deepcopy(T)
                     for n in ast.walk(load_t):
@@ -532,6 +539,11 @@ def _alias_rhs(e) -> bool:
     """right-hand sides whose value is an existing object / scalar found by pure navigation."""
     if isinstance(e, (ast.Name, ast.Constant)):
         return True
+    if isinstance(e, ast.Compare) and len(e.ops) == 1 and isinstance(e.ops[0], (ast.In, ast.NotIn, ast.Is, ast.IsNot, ast.Eq, ast.NotEq)):
+        # a named test (`taken = key in self._index`): pure, re-evaluated at its use
+        return _alias_rhs(e.left) and _alias_rhs(e.comparators[0])
+    if isinstance(e, ast.UnaryOp) and isinstance(e.op, ast.Not):
+        return _alias_rhs(e.operand)
     if isinstance(e, ast.Attribute):
         return _alias_rhs(e.value)
     if isinstance(e, ast.Subscript):
@@ -543,14 +555,17 @@ def _alias_rhs(e) -> bool:
     return False
 
 
-def _disturbs(stmt, names, attrs, subs) -> bool:
-    """could executing `stmt` change what the aliased expression denotes?"""
+def _disturbs(stmt, names, attrs, subs, alias=None) -> bool:
+    """could executing `stmt` change what the aliased expression denotes?  (a store INTO the aliased object through the
+    alias itself - `alias[k] = v` - changes the object's content, not which object the expression denotes)"""
     for n in ast.walk(stmt):
         if isinstance(n, ast.Name) and isinstance(n.ctx, (ast.Store, ast.Del)) and n.id in names:
             return True
         if isinstance(n, ast.Attribute) and isinstance(n.ctx, (ast.Store, ast.Del)) and n.attr in attrs:
             return True
         if isinstance(n, ast.Subscript) and isinstance(n.ctx, (ast.Store, ast.Del)) and subs:
+            if alias is not None and isinstance(n.value, ast.Name) and n.value.id == alias:
+                continue
             return True
         if isinstance(n, ast.Call):
             f = n.func
@@ -632,7 +647,13 @@ class _CopyProp:
         # statements executed between the binding and the last use must not disturb the expression; the
         # statement holding a use may store into the same field AFTER evaluating the use (x.f = g(alias))
         last = max(k for k, s in enumerate(rest) if any(isinstance(n, ast.Name) and n.id == x for n in ast.walk(s)))
-        for s in rest[:last + 1]:
+        for k_, s in enumerate(rest[:last + 1]):
+            if k_ == last and isinstance(s, ast.If) and not any(
+                    isinstance(n, ast.Name) and n.id == x for b in s.body + s.orelse for n in ast.walk(b)):
+                # the last use sits in the test of this `if`: what its branches do comes after the use
+                if _disturbs(ast.Expr(value=s.test), names, attrs, subs):
+                    return False
+                continue
             if self._disturbing_before_use(s, x, names, attrs, subs):
                 return False
         # ordered walk: once a statement has stored into a field / item the expression reads (x = a.f ... a.f = v),
@@ -656,7 +677,8 @@ class _CopyProp:
             for m in ast.walk(n):
                 if isinstance(m, ast.Attribute) and isinstance(m.ctx, (ast.Store, ast.Del)) and m.attr in attrs:
                     return True
-                if subs and isinstance(m, ast.Subscript) and isinstance(m.ctx, (ast.Store, ast.Del)):
+                if subs and isinstance(m, ast.Subscript) and isinstance(m.ctx, (ast.Store, ast.Del)) \
+                        and not (isinstance(m.value, ast.Name) and m.value.id == x):
                     return True
                 if isinstance(m, ast.Call) and isinstance(m.func, ast.Name) and m.func.id in ('setattr', 'delattr'):
                     return True
@@ -690,7 +712,7 @@ class _CopyProp:
         statement whose value holds the use."""
         if isinstance(s, (ast.Assign, ast.AugAssign, ast.AnnAssign, ast.Expr, ast.Return)):
             val = getattr(s, 'value', None)
-            if val is not None and _disturbs(ast.Expr(value=val), names, attrs, subs):
+            if val is not None and _disturbs(ast.Expr(value=val), names, attrs, subs, x):
                 return True
             tg = s.targets if isinstance(s, ast.Assign) else ([s.target] if hasattr(s, 'target') else [])
             for t in tg:
@@ -704,13 +726,13 @@ class _CopyProp:
                 self._stored_after = True
             return False
         if isinstance(s, ast.If):
-            if _disturbs(ast.Expr(value=s.test), names, attrs, subs):
+            if _disturbs(ast.Expr(value=s.test), names, attrs, subs, x):
                 return True
             return any(self._disturbing_before_use(b, x, names, attrs, subs) for b in s.body + s.orelse)
         if isinstance(s, (ast.For, ast.While)):
             # a loop may run its body several times: a store inside it precedes the next iteration's use
-            return _disturbs(s, names, attrs, subs)
-        return _disturbs(s, names, attrs, subs)
+            return _disturbs(s, names, attrs, subs, x)
+        return _disturbs(s, names, attrs, subs, x)
 
 
 def _rename_iteration_locals(stmts, suffix, outside_reads):
@@ -873,12 +895,19 @@ def _fold_named_constants(tree) -> int:
     def consts_of(body):
         out = {}
         for st in body:
-            if isinstance(st, ast.Assign) and len(st.targets) == 1 and isinstance(st.targets[0], ast.Name) \
-                    and isinstance(st.value, ast.Constant) and isinstance(st.value.value, (str, int, float)) \
-                    and not isinstance(st.value.value, bool):
-                nm = st.targets[0].id
+            tg_, v_ = None, None
+            if isinstance(st, ast.Assign) and len(st.targets) == 1 and isinstance(st.targets[0], ast.Name):
+                tg_, v_ = st.targets[0], st.value
+            elif isinstance(st, ast.AnnAssign) and isinstance(st.target, ast.Name) and st.value is not None:
+                tg_, v_ = st.target, st.value
+            scalar = isinstance(v_, ast.Constant) and isinstance(v_.value, (str, int, float)) and not isinstance(v_.value, bool)
+            # a tuple of string constants (file extensions, type names): usable wherever the name is read
+            strtuple = isinstance(v_, ast.Tuple) and v_.elts and all(
+                isinstance(e, ast.Constant) and isinstance(e.value, str) for e in v_.elts)
+            if tg_ is not None and (scalar or strtuple):
+                nm = tg_.id
                 if nm.strip('_').isupper() and name_stores.get(nm) == 1 and nm not in attr_stores:
-                    out[nm] = st.value
+                    out[nm] = v_
         return out
     mod_consts = consts_of(tree.body)
     class_consts = {c.name: consts_of(c.body) for c in tree.body if isinstance(c, ast.ClassDef)}
@@ -897,7 +926,7 @@ def _fold_named_constants(tree) -> int:
             nonlocal count
             if isinstance(node.ctx, ast.Load) and node.id in mod_consts:
                 count += 1
-                return ast.copy_location(ast.Constant(value=mod_consts[node.id].value), node)
+                return ast.copy_location(copy.deepcopy(mod_consts[node.id]), node)
             return node
 
         def visit_Attribute(self, node):
@@ -911,9 +940,73 @@ def _fold_named_constants(tree) -> int:
                     owner = node.value.id
                 if owner and node.attr in class_consts.get(owner, {}):
                     count += 1
-                    return ast.copy_location(ast.Constant(value=class_consts[owner][node.attr].value), node)
+                    return ast.copy_location(copy.deepcopy(class_consts[owner][node.attr]), node)
             return node
     Fold(None).visit(tree)
+    return count
+
+
+
+# ---------------------------------------------------------------------------------------------- N16
+def _setdefault_on_fresh_dict(tree) -> int:
+    """d = {<constant keys>} ... v = d.setdefault('k', {})  (k not among the keys, not stored in between)
+       ->  d['k'] = {} ; v = d['k']"""
+    count = 0
+    for parent in ast.walk(tree):
+        for fld in ('body', 'orelse', 'finalbody'):
+            blk = getattr(parent, fld, None)
+            if not (isinstance(blk, list) and blk and isinstance(blk[0], ast.stmt)):
+                continue
+            lits = {}      # name -> set of constant keys known to be present (dict literal bound in this block)
+            i = 0
+            while i < len(blk):
+                st = blk[i]
+                if isinstance(st, ast.Assign) and len(st.targets) == 1 and isinstance(st.targets[0], ast.Name):
+                    nm = st.targets[0].id
+                    v = st.value
+                    if isinstance(v, ast.Dict) and all(isinstance(k, ast.Constant) for k in v.keys):
+                        lits[nm] = {k.value for k in v.keys}
+                    elif isinstance(v, ast.Call) and isinstance(v.func, ast.Attribute) and v.func.attr == 'setdefault' \
+                            and isinstance(v.func.value, ast.Name) and v.func.value.id in lits and len(v.args) == 2 \
+                            and isinstance(v.args[0], ast.Constant) and not v.keywords \
+                            and isinstance(v.args[1], (ast.Dict, ast.List)) and not (getattr(v.args[1], 'keys', None) or getattr(v.args[1], 'elts', None)) \
+                            and v.args[0].value not in lits[v.func.value.id]:
+                        d_ = v.func.value.id
+                        k_ = v.args[0]
+                        store = ast.Assign(targets=[ast.Subscript(value=ast.Name(id=d_, ctx=ast.Load()), slice=k_, ctx=ast.Store())],
+                                           value=v.args[1], type_comment=None)
+                        load = ast.Assign(targets=[st.targets[0]],
+                                          value=ast.Subscript(value=ast.Name(id=d_, ctx=ast.Load()), slice=copy.deepcopy(k_), ctx=ast.Load()),
+                                          type_comment=None)
+                        for o in (store, load):
+                            ast.copy_location(o, st)
+                            ast.fix_missing_locations(o)
+                        blk[i:i + 1] = [store, load]
+                        lits[d_].add(k_.value)
+                        count += 1
+                        i += 2
+                        continue
+                    else:
+                        lits.pop(nm, None)
+                else:
+                    # anything else that mentions a tracked dict other than plain subscript stores of constants: forget it
+                    for nm in list(lits):
+                        for x in ast.walk(st):
+                            if isinstance(x, ast.Name) and x.id == nm:
+                                par_ok = isinstance(st, ast.Assign) and isinstance(st.targets[0], ast.Subscript) \
+                                    and isinstance(st.targets[0].value, ast.Name) and st.targets[0].value.id == nm \
+                                    and isinstance(st.targets[0].slice, ast.Constant)
+                                if par_ok:
+                                    lits[nm].add(st.targets[0].slice.value)
+                                elif isinstance(st, (ast.For, ast.While, ast.If, ast.Expr, ast.Return)) or not par_ok:
+                                    # reads are harmless, writes through unknown keys are not: be conservative for calls
+                                    if any(isinstance(y, ast.Call) and isinstance(y.func, ast.Attribute)
+                                           and isinstance(y.func.value, ast.Name) and y.func.value.id == nm
+                                           and y.func.attr in ('update', 'setdefault', 'pop', 'clear', 'popitem')
+                                           for y in ast.walk(st)):
+                                        lits.pop(nm, None)
+                                break
+                i += 1
     return count
 
 
@@ -938,6 +1031,7 @@ def normalize(tree: ast.Module, inline: bool = True) -> ast.Module:
     n.count += ninl
     n.count += _search_loops(tree)
     n.count += _raise_split_and_unpeel(tree)
+    n.count += _setdefault_on_fresh_dict(tree)
     cp = _CopyProp()
     for f in [x for x in ast.walk(tree) if isinstance(x, (ast.FunctionDef, ast.AsyncFunctionDef))]:
         for _ in range(3):
